@@ -22,7 +22,7 @@ static jmp_buf h_exit_jb;
 static int h_exit_armed = 0;
 static int h_exit_code = -1;
 extern void _exit(int) __attribute__((noreturn));
-static void h_real_exit(int c) { fflush(stdout); syscall(231 /* exit_group */, c); for (;;) ; }
+static void __attribute__((noreturn)) h_real_exit(int c) { fflush(stdout); syscall(231 /* exit_group */, c); for (;;) ; }
 void _exit(int c)
 {
   if (h_exit_armed) { h_exit_code = c; h_exit_armed = 0; longjmp(h_exit_jb, 1); }
